@@ -798,3 +798,20 @@ func (sp DocSpec) Without(f string) DocSpec {
 	}
 	return c
 }
+
+// PlainStorage returns the same logical document in the simplest physical
+// layout: every storage dimension reset, every content dimension kept. The two
+// documents show the same text at the same positions.
+func (sp DocSpec) PlainStorage() DocSpec {
+	c := sp
+	c.FontKinds = append([]int{}, sp.FontKinds...)
+	c.RevOps = append([]int{}, sp.RevOps...)
+	c.XRef = make([]int, len(sp.XRef))
+	c.EOL, c.Tight, c.Loose, c.Comments, c.HexPct, c.NameEsc, c.DictBreak = 0, false, false, false, 0, false, false
+	c.ObjStm, c.ObjStmN, c.ObjStmZ, c.XRefZ, c.WidePad = 0, 0, false, 0, 0
+	c.Shuffle, c.Renumber, c.SplitXRef = false, false, false
+	c.LenMode, c.LenInStm, c.Filter, c.Predictor, c.Split = 0, false, 0, 0, 0
+	c.ContentsArr, c.ContentsRef = false, false
+	c.TreeDepth, c.InheritAt, c.ResIndirect, c.FontPartsIndirect, c.KidsRef = 1, 0, false, false, false
+	return c
+}
